@@ -95,6 +95,27 @@ type VariantOpts struct {
 
 // Variant renders the graph in a randomly chosen surface form and returns the list of transformations applied.
 func (g *Graph) Variant(r *rand.Rand) (string, []string) {
+	// some edges n --p--> m are written the other way round: on an extra node object for m, {"@reverse": {p: {"@id": n}}}
+	type revEdge struct{ subj, pred, obj string }
+	var reversed []revEdge
+	if r.Intn(3) == 0 {
+		h := NewGraph()
+		for _, n := range g.Nodes {
+			nn := h.AddNode(n.ID, n.Types...)
+			for _, p := range n.Props {
+				for _, v := range p.Values {
+					if v.IsRef() && g.Node(v.Ref) != nil && len(p.Values) > 1 && r.Intn(3) == 0 {
+						reversed = append(reversed, revEdge{n.ID, p.Pred, v.Ref})
+						continue
+					}
+					nn.Add(p.Pred, v)
+				}
+			}
+		}
+		if len(reversed) > 0 {
+			g = h
+		}
+	}
 	var applied []string
 	mark := func(s string) {
 		for _, a := range applied {
@@ -281,6 +302,20 @@ func (g *Graph) Variant(r *rand.Rand) (string, []string) {
 			mark("repeated-node-object")
 			top = append(top, obj)
 		}
+	}
+	for _, e := range reversed {
+		o := &OObj{}
+		o.Set("@id", compactID(e.obj))
+		inner := &OObj{}
+		var subj any = func() any { so := &OObj{}; so.Set("@id", compactID(e.subj)); return so }()
+		if r.Intn(2) == 0 {
+			subj = []any{subj}
+		}
+		inner.Set(compactPred(e.pred), subj)
+		o.Set("@reverse", inner)
+		pos := r.Intn(len(top) + 1)
+		top = append(top[:pos], append([]any{o}, top[pos:]...)...)
+		mark("@reverse-property")
 	}
 	// --- a node object split in two objects with the same @id (each property stays whole in one of them)
 	for k := 0; k < len(top) && r.Intn(3) == 0; k++ {
